@@ -43,10 +43,16 @@ def pad0_ref(frame, c, h, w, p):
 def run_impl(fn, frame, c, h, w, peaks, fill, dtype=np.float32):
     """returns (status, windows) ; status 'ok' | 'raise:<type>' | 'guard' (write outside the buffer)"""
     big, view = guarded_buf(len(peaks), h, w, fill, dtype)
+    pk = np.asarray(peaks, dtype=np.int64).reshape(-1, 2).copy()
+    pk0, fr0 = pk.copy(), frame.copy()
     try:
-        fn(np.asarray(peaks, dtype=np.int64).reshape(-1, 2), frame, c, view)
+        fn(pk, frame, c, view)
     except Exception as e:  # noqa
         return 'raise:' + type(e).__name__, None
+    if not np.array_equal(pk, pk0):
+        return 'the peak list passed in was modified in place (%s -> %s)' % (pk0[:2].tolist(), pk[:2].tolist()), None
+    if not np.array_equal(frame, fr0, equal_nan=True):
+        return 'the frame passed in was modified in place', None
     chk = big.copy()
     chk[1:len(peaks) + 1, 3:3 + h, 3:3 + w] = -5555
     if not (chk == -5555).all():
@@ -68,10 +74,10 @@ def oracle_case(frame_vals, c, h, w, peaks, fill, dtype=np.float32):
         res[name] = win
         for i, p in enumerate(peaks):
             exp = pad0_ref(frame_vals, c, h, w, p)
-            if not np.array_equal(win[i].astype(np.float64), exp):
+            if not np.array_equal(win[i].astype(np.float64), exp, equal_nan=True):
                 return {'backend': name, 'problem': 'window differs from zero-padded window',
                         'peak': [int(p[0]), int(p[1])], 'expected': exp.tolist(), 'got': win[i].tolist()}
-    if not np.array_equal(res['per_pixel'], res['slicing']):
+    if not np.array_equal(res['per_pixel'], res['slicing'], equal_nan=True):
         return {'backend': 'both', 'problem': 'back-ends disagree'}
     return None
 
@@ -99,7 +105,15 @@ def search(ctx, budget_shapes):
     is not needed: the box is enumerated from the smallest shapes up)."""
     n = 0
     for fy, fx in budget_shapes:
+      for nonfinite in (False, True):
         vals = (np.arange(fy * fx, dtype=np.float32).reshape(fy, fx) + 1)
+        if nonfinite:
+            # non-finite pixels on the frame border: zero padding must stay exactly zero next to them
+            if (fy, fx) not in ((1, 1), (2, 3), (3, 2), (4, 4), (5, 5), (7, 7)):
+                continue
+            vals[0, fx // 2] = np.inf
+            vals[fy - 1, 0] = np.nan
+            vals[fy // 2, fx - 1] = -np.inf
         for c in (1, 2, 3, 4):
             h = w = 2 * c
             peaks = list(itertools.product(range(-2 * c - 1, fy + 2 * c + 2), range(-2 * c - 1, fx + 2 * c + 2)))
